@@ -388,6 +388,10 @@ pub fn run(report: &mut Report) {
         ("one-bad-char.key", { let mut t = key_text.clone().into_bytes(); let i = t.len() / 2; t[i] = b'!'; String::from_utf8_lossy(&t).into_owned() }),
         ("escaped-newlines.key", key_text.trim_end().replace('\n', "\\n")),
         ("bom.key", format!("\u{feff}{key_text}")),
+        // the right content under the wrong label (a mislabelled export, a hand-edited file)
+        ("labelled-certificate.key", { let label = key_text.lines().next().unwrap_or("").trim_start_matches("-----BEGIN ").trim_end_matches("-----").to_string(); key_text.replace(&label, "CERTIFICATE") }),
+        ("labelled-crl.key", { let label = key_text.lines().next().unwrap_or("").trim_start_matches("-----BEGIN ").trim_end_matches("-----").to_string(); key_text.replace(&label, "X509 CRL") }),
+        ("labelled-csr.key", { let label = key_text.lines().next().unwrap_or("").trim_start_matches("-----BEGIN ").trim_end_matches("-----").to_string(); key_text.replace(&label, "CERTIFICATE REQUEST") }),
     ];
     for (name, text) in &damaged {
         _ = std::fs::write(bundle_dir.join(name), text);
@@ -460,6 +464,62 @@ pub fn run(report: &mut Report) {
             }
         }
     }
+    // whatever options the agent's command line offers for handing over secret material directly (discovered from
+    // its own --help: options whose name speaks of a key / PEM / password / secret and not of a path): the value is
+    // given well-formed and damaged, as it arrives through unquoted shell substitutions and environment files
+    let mut swept: Vec<String> = Vec::new();
+    {
+        let exe = std::env::current_exe().expect("exe").with_file_name("vagent");
+        let mut names: std::collections::BTreeSet<(bool, String)> = std::collections::BTreeSet::new();
+        for (sub, argv) in [(false, vec!["--help"]), (true, vec!["remote", "--help"])] {
+            let out = std::process::Command::new(&exe).args(&argv).output().map(|o| String::from_utf8_lossy(&o.stdout).into_owned()).unwrap_or_default();
+            let toks: Vec<&str> = out.split_whitespace().collect();
+            for (i, t) in toks.iter().enumerate() {
+                let name = t.trim_end_matches([',', '.', ';']);
+                if name.starts_with("--") && toks.get(i + 1).is_some_and(|n| n.starts_with('<')) {
+                    let lower = name.to_ascii_lowercase();
+                    if ["key", "pem", "password", "passphrase", "secret", "token"].iter().any(|w| lower.contains(w)) && !["path", "file", "dir"].iter().any(|w| lower.contains(w)) {
+                        _ = names.insert((sub, name.to_string()));
+                    }
+                }
+            }
+        }
+        let values: Vec<(&str, String)> = vec![
+            ("well-formed", key_text.clone()),
+            ("line breaks flattened to blanks", key_text.trim_end().replace('\n', " ")),
+            ("truncated", key_text[..key_text.len() / 2].to_string()),
+            ("escaped line breaks", key_text.trim_end().replace('\n', "\\n")),
+        ];
+        for (sub, name) in &names {
+            swept.push(name.clone());
+            for (vdesc, value) in &values {
+                for with_key_path in [true, false] {
+                    agent_runs += 1;
+                    let mut args: Vec<String> = vec!["--frequency".into(), "0".into(), "--irrd-host".into(), "127.0.0.1".into(), "--irrd-port".into(), dead_port.to_string(), "-v".into()];
+                    if !*sub {
+                        args.extend([name.clone(), value.clone()]);
+                    }
+                    args.extend(["remote".into(), "--netconf-host".into(), "127.0.0.1".into(), "--netconf-port".into(), dead_port.to_string(), "--ca-cert-path".into(), pk("ca.crt"), "--client-cert-path".into(), pk("client.crt"), "--tls-server-name".into(), "localhost".into()]);
+                    if with_key_path {
+                        args.extend(["--client-key-path".into(), pk("client.key")]);
+                    }
+                    if *sub {
+                        args.extend([name.clone(), value.clone()]);
+                    }
+                    let child = run_child(&json!({}), Some((args, vec![])));
+                    let output = collect(child, Duration::from_secs(12));
+                    bytes_searched += output.len() as u64;
+                    for (enc, set, width) in rsa_windows.iter() {
+                        if search_windows(&output, set, *width) {
+                            report.violation(&format!("C20:agent:command-line-option:{name}:private-key:{}", enc.split(' ').next().unwrap_or("")), &format!("the agent prints part of the TLS client private key given with {name} as {enc} (value {vdesc}, --client-key-path {})", if with_key_path { "also given" } else { "not given" }), json!({"option": name, "value": vdesc, "with_key_path": with_key_path}));
+                            break;
+                        }
+                    }
+                }
+            }
+        }
+    }
+    report.set("secret_valued_command_line_options_found", json!(swept));
     _ = std::fs::remove_dir_all(&bundle_dir);
     report.set("evaluations", evaluations + agent_runs);
     report.set("distinct_nontrivial", distinct.len() as u64);
